@@ -38,6 +38,9 @@ vars == <<inp, phase, k, assigned, hotQ, coldQ>>
 (* utility ladders: shifted supply/target are hi/lo (hot) resp. lo/hi (cold); dtc = 0 so real = shifted *)
 UtH(lo, hi) == [k |-> "H", lo |-> lo, hi |-> hi, cp |-> 0, dtc |-> 0]
 UtC(lo, hi) == [k |-> "C", lo |-> lo, hi |-> hi, cp |-> 0, dtc |-> 0]
+(* a utility with its own contribution d: lo/hi stay the SHIFTED levels, the real ones are d further out *)
+UtHd(lo, hi, d) == [k |-> "H", lo |-> lo, hi |-> hi, cp |-> 0, dtc |-> d]
+UtCd(lo, hi, d) == [k |-> "C", lo |-> lo, hi |-> hi, cp |-> 0, dtc |-> d]
 HUtop == UtH(TMax + 190, TMax + 200)
 CUbot == UtC(TMin - 200, TMin - 190)
 (* isothermal levels sit so that the 10-unit glide contains no lattice breakpoint (multiples of 50) *)
@@ -48,6 +51,7 @@ HotLadder(o) ==
     [] o = 3 -> <<HUtop, UtH(TMin + 100, TMin + 300)>>                       \* 200-unit glide
     [] o = 4 -> <<HUtop, UtH(TMin + 190, TMin + 200), UtH(TMin + 50, TMin + 150)>>   \* isothermal + 100-unit glide
     [] o = 6 -> <<HUtop, UtH(TMin + 140, TMin + 150), UtH(TMin + 140, TMin + 150)>>   \* two utilities at one level (seeded change C04c)
+    [] o = 7 -> <<HUtop, UtHd(TMin + 140, TMin + 150, 100), UtH(TMin + 190, TMin + 200)>>   \* real order (250 > 200) opposite to the shifted one (150 < 200)
     [] o = 5 -> <<UtH(TMin - 300, TMin - 290)>>   \* only a hot utility BELOW everything (where the service puts the
                                                   \* default HU of a problem without cold streams): top row is a process row
 ColdLadder(o) ==
@@ -57,14 +61,19 @@ ColdLadder(o) ==
     [] o = 3 -> <<CUbot, UtC(TMin, TMin + 200)>>
     [] o = 4 -> <<CUbot, UtC(TMin + 100, TMin + 110), UtC(TMin + 150, TMin + 250)>>
     [] o = 6 -> <<CUbot, UtC(TMin + 100, TMin + 110), UtC(TMin + 100, TMin + 110)>>   \* two utilities at one level
+    [] o = 7 -> <<CUbot, UtCd(TMin + 100, TMin + 110, 100), UtC(TMin + 50, TMin + 60)>>     \* real order (0 < 50) opposite to the shifted one (100 > 50)
     [] o = 5 -> <<UtC(TMax + 290, TMax + 300)>>   \* only a cold utility ABOVE everything (default CU of a problem without hot streams)
 
 Sup(u) == IF u.k = "H" THEN u.hi ELSE u.lo      \* shifted supply level
 Tar(u) == IF u.k = "H" THEN u.lo ELSE u.hi      \* shifted target level
 Glide(u) == u.hi - u.lo
-(* the code's iteration order: StreamCollection sorts by t_supply descending; hot walks it reversed *)
-HotOrder(U)  == SortSeq(U, LAMBDA a, b : Sup(a) < Sup(b))      \* lowest grade first
-ColdOrder(U) == SortSeq(U, LAMBDA a, b : Sup(a) > Sup(b))      \* hottest cold utility first
+RealSup(u) == IF u.k = "H" THEN u.hi + u.dtc ELSE u.lo - u.dtc      \* real supply temperature
+(* the code's iteration order: the utility list is sorted by REAL t_supply descending; hot walks it reversed *)
+HotOrder(U)  == SortSeq(U, LAMBDA a, b : RealSup(a) < RealSup(b))
+ColdOrder(U) == SortSeq(U, LAMBDA a, b : RealSup(a) > RealSup(b))
+(* the order the statement speaks of: grade on the SHIFTED scale (lowest hot level / hottest cold level first) *)
+HotGrade(U)  == SortSeq(U, LAMBDA a, b : Sup(a) < Sup(b))
+ColdGrade(U) == SortSeq(U, LAMBDA a, b : Sup(a) > Sup(b))
 
 ---------------------------------------------------------------------------
 (* the zone's pocket-free GCC at the table rows, from the definitional side.           *)
@@ -246,10 +255,19 @@ Greedy(U, j, prior, isHot) ==
            can == IF isHot THEN HasPinch /\ Tar(u) >= A_.hotPinch ELSE HasPinch /\ Tar(u) <= A_.coldPinch
            q == IF can THEN Max({0, NP(Sup(u)) - prior}) ELSE 0
        IN  <<q>> \o Greedy(U, j + 1, prior + q, isHot)
-C04_Optimal ==
-  (Done /\ Isothermal) =>
-     /\ hotQ  = [j \in 1..Len(HotU)  |-> R(Greedy(HotU, 1, 0, TRUE)[j])]
-     /\ coldQ = [j \in 1..Len(ColdU) |-> R(Greedy(ColdU, 1, 0, FALSE)[j])]
+(* known finding KF-C04-contribution-order: utilities with different contributions whose real and shifted supply orders *)
+(* differ are served in the real order, so a lower-grade utility does not get the largest duty it could carry           *)
+KFOrder == HotOrder(HU_) # HotGrade(HU_) \/ ColdOrder(CU_) # ColdGrade(CU_)
+PosIn(U, u) == CHOOSE j \in 1..Len(U) : U[j] = u
+OptimalStrict ==
+  IF ~KFOrder
+  THEN /\ hotQ  = [j \in 1..Len(HotU)  |-> R(Greedy(HotU, 1, 0, TRUE)[j])]
+       /\ coldQ = [j \in 1..Len(ColdU) |-> R(Greedy(ColdU, 1, 0, FALSE)[j])]
+  ELSE \* (only ladders of distinct utilities reach this branch) expected duty of each utility = its share in grade order
+       /\ hotQ  = [j \in 1..Len(HotU)  |-> R(Greedy(HotGrade(HU_), 1, 0, TRUE)[PosIn(HotGrade(HU_), HotU[j])])]
+       /\ coldQ = [j \in 1..Len(ColdU) |-> R(Greedy(ColdGrade(CU_), 1, 0, FALSE)[PosIn(ColdGrade(CU_), ColdU[j])])]
+C04_Optimal == (Done /\ Isothermal) => (OptimalStrict \/ KFOrder)
+C04_OptimalStrict == (Done /\ Isothermal) => OptimalStrict          \* thorough tier: must be VIOLATED (the carve-out is not empty)
 
 (* brute force (tiny config): no integer duty larger than the closed form keeps the profile feasible *)
 FeasibleWith(hq, cq) ==
@@ -273,7 +291,11 @@ CaseRec ==
     Qh |-> A_.Qh, Qc |-> A_.Qc, totHot |-> A_.totHot, totCold |-> A_.totCold,
     hasPinch |-> HasPinch, hotPinch |-> A_.hotPinch, coldPinch |-> A_.coldPinch,
     rows |-> Rows, np |-> [r \in 1..NR |-> NP(Rows[r])],
-    kfGlide |-> KFGlide, isothermal |-> Isothermal,
+    kfGlide |-> KFGlide, kfOrder |-> KFOrder, isothermal |-> Isothermal,
+    optQ |-> IF KFOrder
+             THEN [hot  |-> [j \in 1..Len(HotU)  |-> Greedy(HotGrade(HU_), 1, 0, TRUE)[PosIn(HotGrade(HU_), HotU[j])]],
+                   cold |-> [j \in 1..Len(ColdU) |-> Greedy(ColdGrade(CU_), 1, 0, FALSE)[PosIn(ColdGrade(CU_), ColdU[j])]]]
+             ELSE [hot  |-> Greedy(HotU, 1, 0, TRUE), cold |-> Greedy(ColdU, 1, 0, FALSE)],
     hotQ |-> hotQ, coldQ |-> coldQ,
     feasible |-> Feasible ]
 EmitCase == (DoEmit /\ Done) => PrintT(<<"CASE", ToJson(CaseRec)>>)
